@@ -6,7 +6,6 @@ From FpyV Require Import Num.RealFloat Num.RealFloatProofs Num.RoundSpec Num.Rou
   Num.Float Num.FloatProofs Num.CtxDef Num.Ctx Num.CtxProofs Lang.Lowering.Lower Lang.Lowering.LowerProofs.
 Import ListNotations.
 Open Scope Z_scope.
-Set Default Timeout 120.
 
 (* ---------------------------------------------------------------- comparisons against a bound *)
 Lemma cmp_pos_bound y b : rs b = false -> rc b <> 0 ->
